@@ -28,18 +28,19 @@ class _Cmds:
         self.got = ("t.v", list(args))
 
 
-_CM = None
-
-
 def manager():
-    global _CM
-    if _CM is None:
-        cm = command.CommandManager(None)
-        a = _Cmds()
-        cm.collect_commands(a)
-        assert set(cm.commands) == {"t.s", "t.v"}
-        _CM = (cm, a)
-    return _CM
+    """a fresh CommandManager per case: what one case does to it (parse cache, …) cannot leak into another"""
+    cm = command.CommandManager(None)
+    a = _Cmds()
+    cm.collect_commands(a)
+    assert set(cm.commands) == {"t.s", "t.v"}
+    return cm, a
+
+
+# values that begin and end with a quote character, nested quotes, values that are themselves quoted strings
+WRAPPED = ['"ok"', "'single'", '"', "'", "''", '""', '"a b"', "'a b'", "'a\"b'", '"it\'s"', "\"'x'\"", "'\"x\"'", '"" ""', "'' x ''",
+           '"x', "x'", '"ok" ', "'a' 'b'", '"\\"', "'\t'"]
+PLANS = [["x"], ["x", "x"], ["x", "x", "x"], ["x", "p", "x"], ["p", "x", "x"], ["x", "o", "x"], ["x", "o", "p", "x", "x"], ["o", "x", "p", "o", "x"]]
 
 
 def enc(s):
@@ -89,7 +90,10 @@ class Check(PropertyCheck):
     technique = "Lean 4 proof (induction over strings / argument lists) + differential correspondence through CommandManager.execute"
     rule = ("(a) every string of length <=3 (thorough <=4) over {a, space, \", ', \\, n, x} as one argument of a str-typed and of a "
             "verbatim-typed command, (b) 1–3 random arguments over an alphabet with all whitespace kinds, both quotes, backslashes, "
-            "escape-sequence fragments and non-ASCII, (c) raw command lines over the same alphabet (split rule). distinct = distinct "
+            "escape-sequence fragments and non-ASCII plus values wrapped in / consisting of quote characters, (c) raw command lines over "
+            "the same alphabet (split rule). Every case runs on ONE fresh CommandManager and executes its line 1–3 times, interleaved "
+            "with parse_partial calls and another line (plans x/p/o); the oracle and the (stateless) model are applied to every "
+            "execution, and all executions must agree. distinct = distinct "
             "(kind, type, strings); non-trivial = at least one argument or a non-blank raw line.")
     budget = {"quick": 10000, "thorough": 300000}
     time_budget = {"quick": 30, "thorough": 600}
@@ -103,6 +107,11 @@ class Check(PropertyCheck):
 
     # ------------------------------------------------------------------ generator
     def _rand(self, rng, lo=0, hi=8):
+        r = rng.random()
+        if r < 0.12: return rng.pick(WRAPPED)
+        if r < 0.22:
+            q = rng.pick("'\"")
+            return q + self._rand(rng, 0, 4) + q
         out = ""
         for _ in range(rng.randint(lo, hi)):
             out += rng.pick(PIECES) if rng.chance(0.12) else rng.pick(ALPHA)
@@ -117,17 +126,23 @@ class Check(PropertyCheck):
             for ty in ("s", "v"):
                 yield {"k": "args", "ty": ty, "args": [p]}
                 yield {"k": "args", "ty": ty, "args": ["'\"" + p]}
+        for w in WRAPPED:
+            for ty in ("s", "v"):
+                for plan in (["x", "x", "x"], ["x", "p", "x"], ["x", "o", "x"]):
+                    yield {"k": "args", "ty": ty, "args": [w], "plan": plan}
+                yield {"k": "args", "ty": ty, "args": ["a", w, w], "plan": ["x", "x"]}
         if tier == "thorough":
             for t in itertools.product(SMALL, repeat=4):
                 yield {"k": "raw", "ty": "v", "line": "t.v " + "".join(t)}
         while True:
             ty = "s" if rng.chance(0.5) else "v"
             r = rng.random()
+            plan = rng.pick(PLANS)
             if r < 0.6:
-                yield {"k": "args", "ty": ty, "args": [self._rand(rng) for _ in range(rng.randint(1, 3))]}
+                yield {"k": "args", "ty": ty, "args": [self._rand(rng) for _ in range(rng.randint(1, 3))], "plan": plan}
             else:
                 pre = rng.pick(["t.%s ", " t.%s  ", '"t.%s" ', "'t.%s'\t", "t.%s", "t.%s\n"]) % ty
-                yield {"k": "raw", "ty": ty, "line": pre + self._rand(rng, 0, 12)}
+                yield {"k": "raw", "ty": ty, "line": pre + self._rand(rng, 0, 12), "plan": plan}
 
     # ------------------------------------------------------------------ implementation
     def impl(self, case):
@@ -140,22 +155,43 @@ class Check(PropertyCheck):
         if case["ty"] == "s":
             for nm in re.findall(r"\\N\{([^}]+)\}", line):
                 if nm not in UNI and nm not in BOGUS: raise Skip()
+        # the same line is executed several times on ONE manager (history re-run, repeated key binding), interleaved with
+        # another line and with parse_partial calls (the console's completion): x = execute, o = other line, p = parse_partial
+        execs = []
+        for step in case.get("plan", ["x"]):
+            if step == "p":
+                cm.parse_partial(line)
+            elif step == "o":
+                cm.execute("t.v other 'line'")
+            else:
+                execs.append(self._exec(cm, sink, line))
+        toks = list(command_lexer.expr.parse_string(line, parse_all=True))
+        return {"line": line, "exec": execs[0], "execs": execs, "quoted": quoted, "tokens": toks}
+
+    @staticmethod
+    def _exec(cm, sink, line):
         sink.got = None
         try:
             cm.execute(line)
-            ex = ["call", sink.got[0], sink.got[1]]
+            return ["call", sink.got[0], sink.got[1]]
         except exceptions.CommandError as e:
             m = str(e)
-            if m.startswith("Invalid command"): ex = ["nocmd"]
-            elif m.startswith("Unknown command"): ex = ["unknown"]
-            else: ex = ["badarg"]
-        toks = list(command_lexer.expr.parse_string(line, parse_all=True))
-        return {"line": line, "exec": ex, "quoted": quoted, "tokens": toks}
+            if m.startswith("Invalid command"): return ["nocmd"]
+            if m.startswith("Unknown command"): return ["unknown"]
+            return ["badarg"]
 
     # ------------------------------------------------------------------ the property on the implementation
     def oracle(self, case, obs):
         fails = []
-        ex = obs["exec"]
+        for i, ex in enumerate(obs["execs"]):
+            fails += self._oracle_one(case, obs, ex)
+            # every execution of the same line on the same manager must deliver the same arguments
+            if ex != obs["execs"][0]:
+                fails.append("rerun: execution %d of %r gave %r, the first one %r" % (i + 1, obs["line"], ex, obs["execs"][0]))
+        return fails
+
+    def _oracle_one(self, case, obs, ex):
+        fails = []
         if case["k"] == "args":
             # "Any string, quoted with the console's quoting rule and placed in a command line, is passed to the executed command unchanged"
             want = case["args"]
@@ -207,23 +243,27 @@ class Check(PropertyCheck):
             extra = ["quote %s" % enc(a) for a in case["args"]]
         else:
             line, extra = case["line"], []
-        return ["exec %s" % enc(line)] + extra + ["lex %s" % enc(line)]
+        n = sum(1 for st in case.get("plan", ["x"]) if st == "x")
+        return ["exec %s" % enc(line)] * n + extra + ["lex %s" % enc(line)]
 
     def model_obs(self, case, replies):
         return replies
 
     def impl_view(self, case, obs):
-        ex = obs["exec"]
-        if ex[0] == "call": first = " ".join(["call", enc(ex[1]), str(len(ex[2]))] + [enc(a) for a in ex[2]])
-        else: first = ex[0]
-        return [first] + [enc(q) for q in obs["quoted"]] + [" ".join([str(len(obs["tokens"]))] + [enc(t) for t in obs["tokens"]])]
+        firsts = []
+        for ex in obs["execs"]:
+            if ex[0] == "call": firsts.append(" ".join(["call", enc(ex[1]), str(len(ex[2]))] + [enc(a) for a in ex[2]]))
+            else: firsts.append(ex[0])
+        return firsts + [enc(q) for q in obs["quoted"]] + [" ".join([str(len(obs["tokens"]))] + [enc(t) for t in obs["tokens"]])]
 
     def classify(self, case, obs):
-        if case["k"] == "args": return ("a", case["ty"], tuple(case["args"]))
-        return ("r", case["ty"], case["line"]) if case["line"].strip(WS) else None
+        plan = "".join(case.get("plan", ["x"]))
+        if case["k"] == "args": return ("a", case["ty"], tuple(case["args"]), plan)
+        return ("r", case["ty"], case["line"], plan) if case["line"].strip(WS) else None
 
     def branches(self, case, obs):
-        out = ["%s:%s:%s" % (case["k"], case["ty"], obs["exec"][0])]
+        out = ["%s:%s:%s" % (case["k"], case["ty"], obs["exec"][0]), "plan:" + "".join(case.get("plan", ["x"]))]
+        if any(len(a) > 1 and a[0] in "'\"" and a[-1] == a[0] for a in case.get("args", [])): out.append("arg-wrapped-in-quotes")
         if case["k"] == "args":
             for a, q in zip(case["args"], obs["quoted"]):
                 out.append("quote:" + ("bare" if q == a else "dq" if q[0] == '"' and '"' not in a else "sq" if q[0] == "'" else "x22"))
@@ -250,8 +290,8 @@ class Check(PropertyCheck):
             for i in range(len(s) + 1):
                 for c in SMALL + ["\xa0", "\n"]:
                     for ty in ("s", "v"):
-                        yield {"k": "args", "ty": ty, "args": [s[:i] + c + s[i:]]}
-                        yield {"k": "raw", "ty": ty, "line": "t.%s " % ty + s[:i] + c + s[i:]}
+                        yield {"k": "args", "ty": ty, "args": [s[:i] + c + s[i:]], "plan": ["x", "p", "x"]}
+                        yield {"k": "raw", "ty": ty, "line": "t.%s " % ty + s[:i] + c + s[i:], "plan": ["x", "x"]}
 
     def exhaustive(self, tier):
         for n in range(0, 5):
